@@ -432,6 +432,9 @@ def PLoop (Z : Pos) (Qe : Post) : Post := PSeqN [PList (PReal Z), POpt Qe]
 def PEvent (Z : Pos) : Post := fun lo hi v =>
   PReal Z lo hi v ∨ PLeaf Z lo hi v ∨ (∃ t c, v = Tree.seq [Tree.leaf t, c] ∧ PSeqN [PLeaf Z, PReal Z] lo hi v) ∨ (v = noEnd ∧ lo.le hi = true)
 
+/-- an AST node whose range also ENDS inside the interval (identifiers: the range of one token) -/
+def PTight (Z : Pos) : Post := fun lo hi v => PReal Z lo hi v ∧ v.rng.e.le hi = true
+
 def QΓ (Z : Pos) : Nat → Post
   | 0 => PTopList Z
   | 1 => PReal Z
@@ -448,7 +451,8 @@ def QΓ (Z : Pos) : Nat → Post
   | 41 | 42 => PList (PReal Z)
   | 43 => PReal Z
   | 44 => POpt (PReal Z)
-  | 45 | 46 | 47 => PReal Z
+  | 45 | 47 => PReal Z
+  | 46 => PTight Z
   | 48 => PNodeOK Z
   | 49 | 50 => PReal Z
   | _ => fun lo hi v => v = Tree.none ∧ lo.le hi = true
@@ -466,7 +470,8 @@ include hc
 theorem r_expr : Der Γ Δ Z F (.ref nExpr) (PReal Z) := hc.1 nExpr
 theorem r_primary : Der Γ Δ Z F (.ref nPrimary) (PReal Z) := hc.1 nPrimary
 theorem r_dotOps : Der Γ Δ Z F (.ref nDotOps) (PReal Z) := hc.1 nDotOps
-theorem r_identifier : Der Γ Δ Z F (.ref nIdentifier) (PReal Z) := hc.1 nIdentifier
+theorem r_identifierT : Der Γ Δ Z F (.ref nIdentifier) (PTight Z) := hc.1 nIdentifier
+theorem r_identifier : Der Γ Δ Z F (.ref nIdentifier) (PReal Z) := (r_identifierT hc).weaken (fun _ _ _ h => h.1)
 theorem r_literalBasic : Der Γ Δ Z F (.ref nLiteralBasic) (PReal Z) := hc.1 nLiteralBasic
 theorem r_methodCall : Der Γ Δ Z F (.ref nMethodCall) (PReal Z) := hc.1 nMethodCall
 theorem r_compare : Der Γ Δ Z F (.ref nCompare) (PReal Z) := hc.1 nCompare
@@ -476,8 +481,8 @@ theorem r_statement : Der Γ Δ Z F (.ref nStatement) (PReal Z) := hc.1 nStateme
 theorem r_oqlExpr : Der Γ Δ Z F (.ref nOqlExpr) (PReal Z) := hc.1 nOqlExpr
 
 omit hc in
-theorem d_gIdentifier : Der Γ Δ Z F gIdentifier (PReal Z) :=
-  Der.map (Der.toks _) (fun _ _ _ h => terminal_real h.item)
+theorem d_gIdentifier : Der Γ Δ Z F gIdentifier (PTight Z) :=
+  Der.map (Der.toks _) (fun _ _ _ h => ⟨terminal_real h.item, by obtain ⟨t, rfl, _, _, h, _⟩ := h; exact h⟩)
 
 omit hc in
 theorem d_gLiteralBasic : Der Γ Δ Z F gLiteralBasic (PReal Z) :=
